@@ -452,7 +452,9 @@ func (c *SCIONClient) measureClockOffsetSCION(ctx context.Context, mtrcs *scionC
 			tsOpt, err := e2eLayer.FindOption(scion.OptTypeTimestamp)
 			if err == nil {
 				cRxTime0, err := udp.TimestampFromOOBData(tsOpt.OptData)
-				if err == nil {
+				if err == nil && !cRxTime0.Before(cTxTime1) && !cRxTime0.After(cRxTime) {
+					// the end host forwarder received the packet after the request
+					// was sent and before it arrived here
 					cRxTime = cRxTime0
 				}
 			}
